@@ -203,6 +203,11 @@ def python_side(prop, tier, seed, budget_scale=1.0):
         r["idx"] = ("corpus", os.path.basename(path))
         r["case"] = case
         results.append(r)
+    # witnesses of the repaired defects of this property (KNOWN_FINDINGS 'fixed' entries): a regression is a violation
+    for k in load_known():
+        w = k.get("witness")
+        if k.get("property") == prop.ID and k.get("status") == "fixed" and isinstance(w, str) and w.endswith(".py"):
+            results.append(run_witness(w))
     n_ex = prop.n_exhaustive(tier) if hasattr(prop, "n_exhaustive") else 0
     n_rand = int(prop.budget(tier) * budget_scale)
     idxs = [("x", i) for i in range(n_ex)] + [("r", i) for i in range(n_rand)]
@@ -218,6 +223,21 @@ def python_side(prop, tier, seed, budget_scale=1.0):
             for part in pool.imap(_worker, jobs):
                 results.extend(part)
     return results
+
+
+def run_witness(rel):
+    """run a committed witness script of a repaired defect against /repo: exit 0 = the defect stays repaired"""
+    path = os.path.join(VERIF, rel)
+    r = {"hash": "witness:" + rel, "failures": [], "ops": [], "expected": [], "nontrivial": True, "tags": ["witness"],
+         "idx": ("witness", os.path.basename(rel)), "case": {"witness": rel}, "src": "prop"}
+    try:
+        p = subprocess.run([PY, path], cwd="/tmp", env=dict(os.environ, PYTHONPATH=lib.REPO), stdout=subprocess.PIPE,
+                           stderr=subprocess.STDOUT, text=True, timeout=300)
+        if p.returncode != 0:
+            r["failures"].append("witness-regressed[%s]: %s" % (os.path.basename(rel), p.stdout.strip()[-300:]))
+    except subprocess.TimeoutExpired:
+        r["failures"].append("witness-regressed[%s]: timeout" % os.path.basename(rel))
+    return r
 
 
 def correspondence(results):
@@ -286,6 +306,10 @@ def main():
     if a.replay:
         payload = json.load(open(a.replay))
         lib.import_gfapy()
+        if isinstance(payload.get("case"), dict) and "witness" in payload["case"]:
+            r = run_witness(payload["case"]["witness"])
+            print(json.dumps({"failures": r["failures"]}, indent=1))
+            sys.exit(1 if r["failures"] else 0)
         if payload.get("kind") in ("oracle", "correspondence") and "case" in payload:
             r = eval_case(prop, payload["case"], src=payload.get("src", "prop"))
             print(json.dumps({"failures": r["failures"], "infra": r.get("infra")}, indent=1))
@@ -344,7 +368,8 @@ def main():
     for r in oracle_fail:
         case = r.get("case")
         for f in r["failures"]:
-            sig = prop.signature(case, f) if hasattr(prop, "signature") else f
+            is_w = isinstance(case, dict) and "witness" in case
+            sig = f.split(":")[0] if is_w else (prop.signature(case, f) if hasattr(prop, "signature") else f)
             k = match_known(known, pid, sig, case)
             if k:
                 known_lines.add("KNOWN-FINDING: property=%s %s" % (pid, k.get("what", sig)))
@@ -352,7 +377,7 @@ def main():
             if sig in seen_sigs:
                 continue
             seen_sigs.add(sig)
-            if hasattr(prop, "shrink") and case is not None:
+            if hasattr(prop, "shrink") and case is not None and not is_w:
                 try:
                     case = prop.shrink(case, f)
                 except Exception:
